@@ -343,6 +343,31 @@ class Holder:
     return l2.fd(name=cls.__name__, v=l2.fa(k))
 
 
+class NotInlined:
+  """Methods declared with experimental_always_inline=False: reached through the class from another
+  auto_config function they are NOT inlined - fdl.build runs their body as plain Python on built arguments."""
+
+  @auto_config.auto_config(experimental_always_inline=False)
+  @staticmethod
+  def describe(x):
+    return l2.Ka(p=int(isinstance(x, l2.Kb)), q=type(x).__name__)
+
+  @auto_config.auto_config(experimental_always_inline=False)
+  @classmethod
+  def scaled(cls, x):
+    return l2.fd(name=cls.__name__, kind=type(x).__name__)
+
+
+@auto_config.auto_config
+def uses_not_inlined_static(n):
+  return l2.fa(NotInlined.describe(l2.Kb(p=n)), b=NotInlined.describe(n))
+
+
+@auto_config.auto_config
+def uses_not_inlined_class(n):
+  return l2.fa(NotInlined.scaled(l2.Kb(p=n)), b=[NotInlined.scaled(n)])
+
+
 @auto_config.auto_config(experimental_allow_control_flow=True)
 def control_flow(n, flag):
   items = []
@@ -441,7 +466,12 @@ class ExtGen:
                          # factories that bind positional arguments only (*args / positional-only callee)
                          f"arg_factory.partial(l2.fa, b=functools.partial(l2.fc, {self.atom()}, {self.atom()}))",
                          f"arg_factory.partial(l2.Ka, p=functools.partial(l2.fe, {self.atom()}), q={self.atom()})",
-                         f"arg_factory.partial(l2.fg, {self.atom()}, w=functools.partial(l2.fh, {self.atom()}, 2))"])
+                         f"arg_factory.partial(l2.fg, {self.atom()}, w=functools.partial(l2.fh, {self.atom()}, 2))",
+                         # positional plain values (positional-only / *args) AND a keyword factory on one partial
+                         # (literal arguments: the canonical form cannot normalise partials nested in the wrapper)
+                         f"arg_factory.partial(functools.partial(l2.fb, {rng.randint(0, 9)}, 'y', {rng.randint(0, 9)}), "
+                         f"k=functools.partial(l2.fd, z={rng.randint(0, 9)}))",
+                         f"arg_factory.partial(functools.partial(l2.fh, {rng.randint(0, 9)}, {rng.randint(0, 9)}), t=l2.Ka)"])
     if r < 0.93:
       self.note("container")
       return rng.choice([f"[{sub()}, {sub()}]", f"({sub()}, {sub()})", "{" + f"'a': {sub()}, 3: {sub()}" + "}"])
@@ -630,6 +660,8 @@ def extended_cases(rng, res):
       ("static_fixture", mod.Holder.static_fixture, (2,)),
       ("class_fixture", mod.Holder.class_fixture, (2,)),
       ("control_flow", mod.control_flow, (3, True)), ("control_flow", mod.control_flow, (0, False)),
+      ("not_inlined_static", mod.uses_not_inlined_static, (2,)),
+      ("not_inlined_class", mod.uses_not_inlined_class, (2,)),
       ("partial_and_factory", mod.partial_and_factory, (6,)),
       ("child", mod.child, (1,)), ("child", mod.child, (1, 9)),
   ]
